@@ -628,6 +628,7 @@ func main() {
 	out := flag.String("out", "", "output Lean file")
 	set := flag.String("set", "linked", "linked | plain")
 	ir := flag.Bool("ir", false, "emit the statement-level IR of put/add/remove/rehash instead of the descriptors")
+	entry := flag.Bool("entry", false, "emit the facts about the entry objects (<Type>LinkedEntry.go) and the sets' ToString")
 	flag.Parse()
 	dir := filepath.Join(*repo, "util", "hmap")
 	names, ns, isPlain := linked, "Gen.C09", false
@@ -635,7 +636,9 @@ func main() {
 		names, ns, isPlain = plain, "Gen.C12", true
 	}
 	var sb strings.Builder
-	if *ir {
+	if *entry {
+		sb.WriteString(entryFile(dir, names))
+	} else if *ir {
 		sb.WriteString(irFile(dir, names, ns+"IR"))
 	} else {
 		sb.WriteString("-- GENERATED by xlate/c09 (-set " + *set + ") from util/hmap/*.go — do not edit\n")
